@@ -116,9 +116,23 @@ def work_walks(task, p):
     for w in range(cnt):
         n = rnd.randint(2, 6)
         code = rnd.randrange(1 << (n * (n - 1) // 2))
-        g = Graph.decompress(n, code)
         rows = lcorbit.adj_rows(code, n)
-        trace = ["decompress(%d,%d)" % (n, code)]
+        how = ("decompress", "c-array", "fortran-array", "strided-view", "transposed-view", "int64-array")[w % 6]
+        if how == "decompress":
+            g = Graph.decompress(n, code)
+        else:
+            M = np.array([[(rows[i] >> j) & 1 for j in range(n)] for i in range(n)], dtype=np.int64 if how == "int64-array" else np.int8)
+            if how == "fortran-array":
+                M = np.asfortranarray(M)
+            elif how == "strided-view":
+                big = np.zeros((2 * n, 2 * n), dtype=np.int8)
+                big[::2, ::2] = M
+                M = big[::2, ::2]
+            elif how == "transposed-view":
+                M = M.copy().T
+            g = Graph(M)
+        p.counters["graph object built via " + how] += 1
+        trace = ["%s(%d,%d)" % (how, n, code)]
         for step in range(rnd.randint(3, 14)):
             op = rnd.choice(["compress", "lc", "lc", "add", "remove", "swap", "copy", "clear", "remove_all", "edges", "count"])
             a, b = rnd.randrange(n), rnd.randrange(n)
